@@ -31,7 +31,8 @@ struct C16Redeliver : Monitor {
 	};
 	std::map<uint64_t, Orig> origs;                 // by serial, client->server p/d queries
 	std::deque<uint64_t> recent;                    // serials in arrival order (bounded)
-	std::deque<std::pair<std::string, Bytes>> cache; // model of the answer cache: (name as received, payload), last 4 distinct answers
+	struct CacheEntry { std::vector<std::string> names; Bytes pl; };   // names: the spelling it was answered under first, and the spellings of copies answered with it
+	std::deque<CacheEntry> cache;                    // model of the answer cache: last 4 distinct answers
 	bool no_check_ip;
 	// current step
 	int step_n = 0; bool step_tun = false; Dgram step_d; bool step_is_redeliv = false; uint64_t step_serial = 0;
@@ -39,7 +40,7 @@ struct C16Redeliver : Monitor {
 	Pos before; bool have_before = false; int step_uid = -1; int dc_before = 0;
 	std::vector<Bytes> step_answers;                // payloads of answers sent to the step's asker with its id
 	int step_other_answers = 0;
-	bool in_cache_at_recv = false; Bytes cached_payload;
+	bool in_cache_at_recv = false; Bytes cached_payload; std::vector<Bytes> respelled_at_recv;   // (cache content when the step's datagram arrived)
 	bool answered_at_recv = false;
 	std::string step_name;                          // question name of the step's datagram, exactly as received
 
@@ -127,8 +128,9 @@ struct C16Redeliver : Monitor {
 		{
 			bool replay = false;
 			// (the second answer to a remembered re-cased duplicate carries the duplicate's spelling: same entry)
-			for (auto &c : cache) if (c.second == pl && c.first.size() == qn.size() && !strcasecmp(c.first.c_str(), qn.c_str())) replay = true;
-			if (!replay) { cache.push_back({qn, pl}); if (cache.size() > 4) cache.pop_front(); }
+			// ... and the copy is a query that has been answered, too: an identical repeat of IT is owed the same payload while the entry lasts
+			for (auto &c : cache) if (c.pl == pl && c.names[0].size() == qn.size() && !strcasecmp(c.names[0].c_str(), qn.c_str())) { replay = true; if (std::find(c.names.begin(), c.names.end(), qn) == c.names.end()) c.names.push_back(qn); }
+			if (!replay) { cache.push_back({{qn}, pl}); if (cache.size() > 4) cache.pop_front(); }
 		}
 		// mark the oldest matching unanswered original as answered
 		for (uint64_t ser : recent) {
@@ -222,7 +224,9 @@ struct C16Redeliver : Monitor {
 		{ UserView v; dc_before = peek_user(cur.uid, v) ? v.dnscache_last : 0; }
 		answered_at_recv = o.answered;
 		// is the repeat identical (name, type) to an entry of the model cache?
-		for (auto &c : cache) if (c.first == cur.name) { in_cache_at_recv = true; cached_payload = c.second; }
+		respelled_at_recv.clear();
+		for (auto &c : cache) if (c.names[0].size() == cur.name.size() && !strcasecmp(c.names[0].c_str(), cur.name.c_str())) respelled_at_recv.push_back(c.pl);
+		for (auto &c : cache) for (auto &nm : c.names) if (nm == cur.name) { in_cache_at_recv = true; cached_payload = c.pl; if (&nm != &c.names[0]) w->probes["c16.repeat_of_answered_copy_in_cache"]++; }
 		w->probes[o.answered ? "c16.repeat_of_answered" : "c16.repeat_of_pending"]++;
 		if (cur.name != o.name_as_received) w->probes["c16.recased"]++;
 		if (cur.id != o.id_as_received) w->probes["c16.newid"]++;
@@ -284,6 +288,9 @@ struct C16Redeliver : Monitor {
 					} else {
 						if (marker) { w->probes["c16.marker"]++; continue; }
 						if (a.empty() || is_refusal(a)) continue;
+						// a re-spelled repeat may be served from the answer cache as well (case-insensitive lookup): the payload the
+						// original was answered with is not "processed again"
+						{ bool replayed = false; for (auto &cp : respelled_at_recv) if (cp == a) replayed = true; if (replayed) { w->probes["c16.cache_hit_respelled"]++; continue; } }
 						snprintf(b, sizeof b, "repeat of an already answered %s query (not in the answer cache) was answered with %zu bytes of tunnel payload: processed as a new query", it != origs.end() && it->second.kind == 'p' ? "ping" : "data", a.size());
 						w->S.violate("C16", "reprocessed", b);
 					}
@@ -515,7 +522,9 @@ struct C15Fragsize : Monitor {
 			w->S.violate("C15", x.n_seen ? "size.exceeds_negotiated" : "size.exceeds_default", b);
 		}
 		if (len == 0) return;
-		std::string qn = m.qd[0].name.dotted();
+		// (the server's answer cache matches names without regard to letter case: the repeat of a relay's re-cased copy is owed the
+		// cached answer as well, and two different queries of one client never differ in case only)
+		std::string qn = m.qd[0].name.dotted(); for (auto &ch : qn) ch = (char)tolower((unsigned char)ch);
 		auto an = x.answered.find(qn);
 		if (an != x.answered.end() && an->second == pl) { w->probes["c15.replays_skipped"]++; return; }
 		x.answered[qn] = pl; x.order.push_back(qn);
